@@ -127,8 +127,8 @@ def errorPageBytes (status message traceback version : Text) : Option Bytes :=
 
 def brTag : Text := ['<', 'b', 'r', ' ', '/', '>']
 
-/-- `'In addition, the custom error page failed:\n'` -/
-def failedSentence : Text := "In addition, the custom error page failed:\n".toList
+/-- `'In addition, the custom error page failed:\n'` (wording from the generated table) -/
+def failedSentence : Text := toText CpModel.Gen.C12.failedSentence
 
 /-- the message field after the `except Exception:` branch of `get_error_page`: the already
     escaped message, `<br />` if it is non-empty, the fixed sentence, `<br />`, and the last line
@@ -151,14 +151,9 @@ def errorPageFailed (status message traceback version e : Text) : Option Text :=
 
 /-! ### redirect page -/
 
+/-- the sentence before the anchor, per status that has a page (wording from the generated table) -/
 def redirectMsg (status : Nat) : Option Text :=
-  if status = 300 then some "This resource can be found at ".toList
-  else if status = 301 then some "This resource has permanently moved to ".toList
-  else if status = 302 then some "This resource resides temporarily at ".toList
-  else if status = 303 then some "This resource can be found at ".toList
-  else if status = 307 then some "This resource has moved temporarily to ".toList
-  else if status = 308 then some "This resource has been moved to ".toList
-  else none
+  (CpModel.Gen.C12.redirectMsgs.find? fun e => e.1 == status).map fun e => toText e.2
 
 /-- `msg % (saxutils.quoteattr(u), html.escape(u, quote=False))` -/
 def redirectAnchor (msg u : Text) : Text :=
